@@ -476,6 +476,20 @@ def run(case, res):
                                      {'replica': r.label, 'port': name, 'cycle': c, 'expected': ev,
                                       'got': got, 'addr': tape[c]['ra' + name[2:]]},
                                      [r.label] + tags0 + (['rom:' + cfg['rom']['kind']] if cfg['rom'] else []))
+        for r in reps:
+            # the user keeps ONE inspect_mem view of the compiled simulator from the start and
+            # looks words up through it as the run goes on (what is read here is not judged: the
+            # replica may be a few cycles ahead); the final comparison goes through this view
+            if r.label == 'compiled' and not cfg['rom'] and r.sim is not None:
+                if getattr(r, 'view', None) is None:
+                    r.view = r.sim.inspect_mem(r.mem)
+                    res.probes.hit('one_inspect_mem_view_kept_for_the_whole_run')
+                for k in ('wa0', 'ra0'):
+                    if k in tape[c]:
+                        try:
+                            r.view[tape[c][k]]
+                        except Exception:
+                            pass
         if cfg['W']:
             for w in range(cfg['W']):
                 for r_ in range(cfg['R']):
@@ -507,6 +521,8 @@ def run(case, res):
                                           'got': got.get(a, 0)}, ['verilog'] + tags0)
                 continue
             got = r.sim.inspect_mem(r.mem)
+            if getattr(r, 'view', None) is not None:
+                got = r.view
             addrs = set(model.mem.keys())
             if r.label != 'compiled':
                 addrs |= set(got.keys())
